@@ -321,7 +321,7 @@ theorem UK.mono {g : Nat} {P : Pending → Prop} {t n n' : Nat} {p p' : List Pen
     lastNomination lastSeen checkingStart checkingTimeout forcePending nextTick caches rx connBytesSent connBytesRecv
     onConnectedFired generation nomIssued) :
     UP g P (Agent.mk cfg tieBreaker controlling started closed connState localUfrag localPwd remoteUfrag remotePwd
-    locals remotes checklist nextPairID nextUid nextTid tag pending selected selStart nominatedPair lastNomination
+    locals remotes checklist nextPairID nextUid nextTid tag pending selected selStart nominatedPair lastNomination answeredNomination
     lastSeen checkingStart checkingTimeout forcePending nextTick caches rx connBytesSent connBytesRecv
     onConnectedFired generation nomIssued) ↔ UK g P tag nextTid pending := Iff.rfl
 
